@@ -22,3 +22,15 @@ func registryConsistent(cm *connMatrix, c *conn) string {
 	}
 	return ""
 }
+
+// connAt returns the live connection stored at a matrix position (nil if none): lets the
+// generator aim at positions - the edges of a row - instead of at registration order.
+func connAt(cm *connMatrix, row, col int) *conn {
+	if row < 0 || row >= len(cm.table) || cm.table[row] == nil || col < 0 || col >= len(cm.table[row]) {
+		return nil
+	}
+	return cm.table[row][col]
+}
+
+// frontier returns the row of the next free slot.
+func frontier(cm *connMatrix) int { return cm.row }
